@@ -59,7 +59,7 @@ def conv_harness(m, kinds):
             pads = [tuple(p) for p in pads]
             shape = [a.shape[i] + pads[i][0] + pads[i][1] for i in range(a.ndim)]
             rec["pad"] = pads
-            return IArr(shape, a.nbyte, True, source=a)
+            return IArr(shape, a.nbyte, None, source=a)
 
         def swv_contract(interp, args, kwargs):
             names = ["arr", "window_shape", "step", "dilation"]
@@ -78,8 +78,8 @@ def conv_harness(m, kinds):
             ctx.assume(v >= 1)
         nb = z3.Int("nbyte")
         ctx.assume(nb > 0)
-        x = TData(IArr([N, C] + xs, nb, True))
-        w = TData(IArr([F, C] + ws, nb, True))
+        x = TData(IArr([N, C] + xs, nb, None))
+        w = TData(IArr([F, C] + ws, nb, None))
 
         def param(name, kind):
             if kind == "int":
@@ -156,7 +156,7 @@ def pool_harness(nd, m, stride_kind):
             ctx.assume(v >= 1)
         nb = z3.Int("nbyte")
         ctx.assume(nb > 0)
-        x = TData(IArr(shp, nb, z3.Bool("contig")))
+        x = TData(IArr(shp, nb, [z3.Int(f"xst{j}") for j in range(len(shp))]))
         pool = tuple(z3.Int(f"w{k}") for k in range(m))
         if stride_kind == "int":
             sv = z3.Int("s")
